@@ -35,8 +35,8 @@ def _world(m, kind, w, h, d, wrap):
         env._index_offset = 1
     else:
         env = _REAL[kind]
-        env.agents = {}
-        env.components = {}
+        env.agents.clear()
+        env.components.clear()
         env.set_model(m)
     m.environment = env
     return env
